@@ -30,6 +30,10 @@ func C14Configs(p *spec.Program) []spec.Config {
 	b.ComputedFields = append(b.ComputedFields, "Sink.Spec", "Sink.Spec.Leaf", "Sink.Spec.Leaf.Str", "Nesting.PtrList", "Nesting.PtrList.Name")
 	b.RequiredFields = append(b.RequiredFields, "Nesting.Val", "Nesting.Val.Name", "Sink.Index", "Sink.Index.Num")
 	b.SensitiveFields = append(b.SensitiveFields, "Sink.Parts", "Sink.Parts.Name", "Sink.Parts.Leaf.Str")
+	// fields several levels down whose ancestors are NOT listed (nothing above them is implied either)
+	b.ComputedFields = append(b.ComputedFields, "DeepNest.Out.Inner.Leaf.Str", "DeepNest.OutV.Inners.Name", "DeepNest.EmbOne.EvLeaf.Num")
+	b.RequiredFields = append(b.RequiredFields, "DeepNest.OutV.ByKey.LeafV.Num", "DeepNest.Out.WhichMid.Leaf.Flag")
+	b.SensitiveFields = append(b.SensitiveFields, "DeepNest.Out.Inner.LeafMap.Str", "DeepNest.EmbList.EvLeaf.Str")
 	tt, dt := *spec.SimTimeType, *spec.SimDurationType
 	tt.TypeConstructor, dt.TypeConstructor = "UseSimTime()", "example.com/x/wrappers.UseDuration()"
 	b.TimeType, b.DurationType = &tt, &dt
